@@ -118,6 +118,9 @@ def configs(quick):
         out.append((f"angle-pair-{conv}-isotropic", "flow", ["x0", "x1"], ["2pi", b2], {"x1": "cos" if conv == "ra-dec" else "sin"}, {"angle-pair": {"parameters": ["x0", "x1"], "convention": conv, "prior": "isotropic"}}, {}))
         out.append((f"angle-pair-{conv}-radial", "flow", ["x0", "x1", "x2"], ["2pi", b2, "unit"], {}, {"angle-pair": {"parameters": ["x0", "x1", "x2"], "convention": conv}}, {}))
     # combinations the proposal accepts / rejects
+    # RescaleToBounds option product: every assignment with <= 2 departures from the defaults
+    # (quick) / the full product (thorough), single entry and two-parameter block
+    out.extend(rtb_product(2 if quick else None))
     one("mixed", {"x0": "inversion", "x1": "logit"})
     one("fallback-zscore", None, "wide", "sym", {"fallback_reparameterisation": "zscore"})
     one("fallback-default", None, "wide", "sym", {"fallback_reparameterisation": "default"})
@@ -133,6 +136,45 @@ def configs(quick):
     for b in ("off", "dist"):
         out.append((f"offset+inversion[{b}]", "flow", ["x0", "x1"], [b, "sym"], {}, {"x0": {"reparameterisation": "rescaletobounds", "offset": True, "boundary_inversion": True, "detect_edges": True, "inversion_type": "duplicate"}}, {}))
         out.append((f"offset+inversion-split[{b}]", "flow", ["x0", "x1"], [b, "sym"], {}, {"x0": {"reparameterisation": "rescaletobounds", "offset": True, "boundary_inversion": True, "detect_edges": True, "inversion_type": "split"}}, {}))
+    return out
+
+
+RTB_OPTIONS = dict(
+    rescale_bounds=[None, [0.0, 1.0], [-2.0, 5.0]],
+    boundary_inversion=[None, True, ["x0"]],
+    inversion_type=["split", "duplicate"],
+    detect_edges=[False, True],
+    offset=[False, True],
+    update_bounds=[True, False],
+    prior=[None, "uniform"],
+    post_rescaling=[None, "logit"],
+)
+
+
+def rtb_product(max_deviations=None):
+    """RescaleToBounds: the product of its option values (or every assignment with at most
+    `max_deviations` departures from the defaults), as a single-parameter entry and as one
+    two-parameter block, on two prior intervals.  Labels start with 'rtb['."""
+    import itertools
+
+    names = list(RTB_OPTIONS)
+    out = []
+    for vals in itertools.product(*[RTB_OPTIONS[k] for k in names]):
+        if max_deviations is not None and sum(v != RTB_OPTIONS[k][0] for k, v in zip(names, vals)) > max_deviations:
+            continue
+        d = {k: v for k, v in zip(names, vals) if (v is not None and v is not False) or k == "update_bounds"}
+        if d.get("boundary_inversion") is None and (d.get("inversion_type") == "duplicate" or d.get("detect_edges")):
+            continue
+        for form in ("single", "block"):
+            if form == "single":
+                if d.get("boundary_inversion") == ["x0"]:
+                    continue
+                rp = {"x0": dict(d, reparameterisation="rescaletobounds")}
+            else:
+                rp = {"rescaletobounds": dict(d, parameters=["x0", "x1"])}
+            for b in ("wide", "off"):
+                label = "rtb[" + form + "," + b + "," + ",".join(f"{k}={v}" for k, v in d.items()) + "]"
+                out.append((label, "flow", ["x0", "x1"], [b, "sym"], {}, rp, {}))
     return out
 
 
@@ -485,7 +527,7 @@ def worker(item):
             prop.set_rescaling()
         except Exception as e:
             stats["rejected"] = f"{type(e).__name__}: {str(e)[:100]}"
-            if label not in EXPECTED_REJECTED:
+            if label not in EXPECTED_REJECTED and not label.startswith("rtb["):
                 errs.append((f"built-in-configuration-rejected:{label}", stats["rejected"]))
             return dict(label=label, errs=[(k, d, {"label": label}) for k, d in errs], stats=stats)
         try:
@@ -493,6 +535,10 @@ def worker(item):
         except Exception as e:
             # nessai's own invertibility test refuses a built-in reparameterisation: it is not a bijection
             stats["rejected"] = f"verify_rescaling: {type(e).__name__}: {str(e)[:100]}"
+            if label.startswith("rtb[") and "boundary_inversion=" in label and "post_rescaling=logit" in label:
+                # boundary inversion followed by a logit is refused by nessai's own check at
+                # initialisation (the mirrored half is outside the logit's domain): not accepted
+                return dict(label=label, errs=[], stats=stats)
             errs.append((f"fails-nessai's-own-invertibility-check:{label}", str(e)[:200]))
             return dict(label=label, errs=[(k, d, {"label": label}) for k, d in errs], stats=stats)
         seen = {}
